@@ -90,6 +90,36 @@ pub fn gen(ctx: &mut Ctx) {
         let b = if ctx.rng.chance(2, 3) { mutate(&mut ctx.rng, &a) } else { rand_version(&mut ctx.rng) };
         ctx.req(&format!("vercmp {} {}", hx(a.as_bytes()), hx(b.as_bytes())));
     }
+    // numeric segments around machine-integer boundaries (2^31, 2^32, 2^63, 2^64, beyond), with leading
+    // zeros on either side: an implementation that parses segments into integers breaks exactly here
+    const BIG: &[&str] = &[
+        "2147483647", "2147483648", "4294967295", "4294967296", "9223372036854775807", "9223372036854775808",
+        "18446744073709551615", "18446744073709551616", "18446744073709551617", "99999999999999999999",
+        "100000000000000000000", "340282366920938463463374607431768211456", "1", "0",
+    ];
+    let n = ctx.q(20_000, 300_000) / sn;
+    for _ in 0..n {
+        let mk = |rng: &mut Rng| {
+            let z = *rng.pick(&["", "", "0", "00", "0000000000000000000000"]);
+            let mut d = rng.pick(BIG).to_string();
+            if rng.chance(1, 4) {
+                // perturb one digit
+                let i = rng.below(d.len() as u64) as usize;
+                let c = (b'0' + rng.below(10) as u8) as char;
+                d.replace_range(i..i + 1, &c.to_string());
+            }
+            let pre = *rng.pick(&["", "1.", "a", "1.0~", "^"]);
+            let post = *rng.pick(&["", ".1", "a", "~", "-1"]);
+            format!("{}{}{}{}", pre, z, d, post)
+        };
+        let a = mk(&mut ctx.rng);
+        let b = if ctx.rng.chance(1, 2) { mk(&mut ctx.rng) } else {
+            // same digits, different zero padding
+            let z = *ctx.rng.pick(&["0", "00", "000000000000000000000"]);
+            match a.find(|c: char| c.is_ascii_digit()) { Some(i) => format!("{}{}{}", &a[..i], z, &a[i..]), None => a.clone() }
+        };
+        ctx.req(&format!("vercmp {} {}", hx(a.as_bytes()), hx(b.as_bytes())));
+    }
     // EVR / NEVRA products and equality
     let pool = ["", "0", "1", "01", "2", "1.0", "1.0~rc1", "1.0^git", "a", "é"];
     let n = ctx.q(20_000, 300_000) / sn;
